@@ -20,7 +20,7 @@ const TMAX: u64 = 1400;
 
 pub fn gen(tier: Tier) -> RosGen {
     RosGen {
-        arr: ArrGen { tmax: tier.pick(40, 80), never: false, plateau_end: true, plain_curves: true, derived: false, acp: false, loose: false, depth: 1 },
+        arr: ArrGen { tmax: tier.pick(40, 80), never: false, plateau_end: true, plain_curves: true, derived: false, acp: false, loose: false, poisson: false, depth: 1 },
         cmax: 7,
         nmax: 4,
         pmax: 8,
@@ -126,7 +126,14 @@ pub struct Tab19 {
     sbf: Vec<u64>,
 }
 
+pub const KNOWN_NONSTEP: &str = "C07/non-scalar-own-cost-maximum-at-non-step-offset";
+
 fn reference19(t: &Tab19, call: &Call19, limit: u64) -> RefRes {
+    reference19_both(t, call, limit).0
+}
+
+/// (evaluation over every offset, evaluation over the step offsets of the own demand only)
+fn reference19_both(t: &Tab19, call: &Call19, limit: u64) -> (RefRes, RefRes) {
     let zero = |_: u64| 0u64;
     let _ = zero;
     let (rhs_bw, b): (Box<dyn Fn(u64) -> u64>, u64) = match call {
@@ -137,10 +144,12 @@ fn reference19(t: &Tab19, call: &Call19, limit: u64) -> RefRes {
     };
     let max_bw = match lfp(&t.sbf, limit, &rhs_bw) {
         Some(x) => x,
-        None => return RefRes::Div(vec![0]),
+        None => return (RefRes::Div(vec![0]), RefRes::Div(vec![0])),
     };
     let mut best = 0;
     let mut failing = vec![];
+    let mut best_steps = 0;
+    let mut failing_steps = vec![];
     for a in 0..=max_bw {
         let rhs = |r: u64| -> u64 {
             match call {
@@ -157,15 +166,27 @@ fn reference19(t: &Tab19, call: &Call19, limit: u64) -> RefRes {
             }
         };
         match lfp_off(&t.sbf, a, limit, rhs) {
-            Some(r) => best = best.max(r),
-            None => failing.push(a),
+            Some(r) => {
+                // the demand whose steps define the search space: own (+ prefix on the same curve)
+                if t.own[(a + 1) as usize] + t.prefix[(a + 1) as usize] > t.own[a as usize] + t.prefix[a as usize] {
+                    best_steps = best_steps.max(r);
+                }
+                if std::env::var("C07_DEBUG").is_ok() {
+                    eprintln!("offset {} own(A+1)={} own_step={} r={} least_wcet(a+r)={}", a, t.own[(a + 1) as usize], t.own[(a + 1) as usize] > t.own[a as usize], r, t.own_least[(a + r) as usize]);
+                }
+                best = best.max(r)
+            }
+            None => {
+                failing.push(a);
+                if t.own[(a + 1) as usize] + t.prefix[(a + 1) as usize] > t.own[a as usize] + t.prefix[a as usize] {
+                    failing_steps.push(a);
+                }
+            }
         }
     }
-    if failing.is_empty() {
-        RefRes::Ok(best)
-    } else {
-        RefRes::Div(failing)
-    }
+    let all = if failing.is_empty() { RefRes::Ok(best) } else { RefRes::Div(failing) };
+    let steps = if failing_steps.is_empty() { RefRes::Ok(best_steps) } else { RefRes::Div(failing_steps) };
+    (all, steps)
 }
 
 type Rb = Rc<dyn RequestBound>;
@@ -224,7 +245,8 @@ fn check19(c: &Case19) -> CheckResult {
         (LimitSel::BelowResult, RefRes::Ok(r)) => r.saturating_sub(1).max(1),
         _ => 300,
     };
-    let exp = if limit == TMAX { huge } else { reference19(&tab, &c.call, limit) };
+    let (exp, exp_steps) = reference19_both(&tab, &c.call, limit);
+    let _ = huge;
     let sup = c.supply.build();
     let got = guard(|| {
         let agg = demand::Aggregate::new(others.clone());
@@ -252,7 +274,15 @@ fn check19(c: &Case19) -> CheckResult {
         Call19::Pp => "rta_polling_point_callback",
         Call19::Chain { .. } => "rta_processing_chain",
     };
-    compare(name, got, &exp, limit)?;
+    if let Err(msg) = compare(name, got, &exp, limit) {
+        // known finding: with a non-scalar own cost model least_wcet_in_interval(A + R) is not constant
+        // between two steps of the own demand, the per-offset bound is then not monotone there, and the
+        // literal maximum over every offset can exceed the maximum over the step offsets the crate examines
+        if !c.own.1.is_scalar() && exp != exp_steps && compare(name, got, &exp_steps, limit).is_ok() {
+            return known_or_violation(KNOWN_NONSTEP, msg, out);
+        }
+        return Err(msg);
+    }
     out.inner = 1;
     out.nontrivial = !c.others.is_empty() || !c.supply.is_dedicated();
     out.label(name);
@@ -466,6 +496,80 @@ fn check21(c: &Case21) -> CheckResult {
     Ok(out)
 }
 
+fn dec_limit(d: &mut crate::dec::Dec) -> LimitSel {
+    match d.pick(5) {
+        0 | 1 => LimitSel::Huge,
+        2 => LimitSel::Absolute(d.range(1, 250)),
+        3 => LimitSel::AtResult,
+        _ => LimitSel::BelowResult,
+    }
+}
+
+pub fn decode19(d: &mut crate::dec::Dec) -> Case19 {
+    use crate::dec::*;
+    let g = DecArr { tmax: 40, never: false, derived: false, acp: false };
+    let own = (dec_arr(d, g, 1), dec_cost(d, 7, false, true));
+    let others = d.vec(0, 3, |d| (dec_arr(d, g, 1), dec_cost(d, 7, false, true)));
+    let supply = dec_supply(d, 8);
+    let call = match d.pick(4) {
+        0 => Call19::EventSource,
+        1 => Call19::Timer { blocking: d.range(0, 7) },
+        2 => Call19::Pp,
+        _ => Call19::Chain { prefix_cost: d.range(0, 7) },
+    };
+    // keep the utilisation below the bandwidth most of the time
+    let mut k = Case19 { own, others, supply, call, limit: dec_limit(d) };
+    let bw = match k.supply.qdp() {
+        Some((q, _, p)) => q as f64 / p as f64,
+        None => 1.0,
+    };
+    let u: f64 = std::iter::once(&k.own).chain(k.others.iter()).map(|(a, c)| c.wcet() as f64 * crate::tasks::rate_of(a)).sum();
+    if u > bw {
+        let f = (u / bw).ceil() as u64 + (d.byte() % 2) as u64;
+        stretch(&mut k.own.0, f);
+        for o in k.others.iter_mut() {
+            stretch(&mut o.0, f);
+        }
+    }
+    k
+}
+
+pub fn decode21(d: &mut crate::dec::Dec) -> Case21 {
+    use crate::dec::*;
+    let g = DecArr { tmax: 40, never: false, derived: false, acp: false };
+    let mut cbs = d.vec(1, 4, |d| {
+        let arr = dec_arr(d, g, 1);
+        let cost = dec_cost(d, 7, false, true);
+        let kind = match d.pick(4) {
+            0 => Kind21::Timer,
+            1 => Kind21::EventSource,
+            2 => Kind21::Unknown,
+            _ => Kind21::Polled(d.range(0, 4) as i32),
+        };
+        Cb21 { arr, cost, kind, r: d.range(1, 90) }
+    });
+    let supply = dec_supply(d, 8);
+    let bw = match supply.qdp() {
+        Some((q, _, p)) => q as f64 / p as f64,
+        None => 1.0,
+    };
+    let u: f64 = cbs.iter().map(|c| c.cost.wcet() as f64 * crate::tasks::rate_of(&c.arr)).sum();
+    if u > bw {
+        let f = (u / bw).ceil() as u64 + (d.byte() % 2) as u64;
+        for c in cbs.iter_mut() {
+            stretch(&mut c.arr, f);
+        }
+    }
+    let n = cbs.len();
+    let mut idx: Vec<usize> = (0..n).collect();
+    for i in 0..n {
+        let j = i + d.pick(n - i);
+        idx.swap(i, j);
+    }
+    idx.truncate(1 + d.pick(n));
+    Case21 { cbs, supply, chain: idx, use_bw: d.flag(), limit: dec_limit(d) }
+}
+
 /// Run the ECRTS'19 analysis selected by the case on the given supply (may panic inside the crate).
 pub fn run19(c: &Case19, supply: &SupplySpec, limit: u64) -> Result<response_time_analysis::time::Duration, SearchFailure> {
     let own = mk_rbf(&c.own.0, &c.own.1);
@@ -514,8 +618,8 @@ pub fn def() -> PropertyDef {
             "limits >= 1".into(),
         ],
         subchecks: vec![
-            subcheck("ecrts19", (8000, 150_000), strategy19, check19),
-            subcheck("rtss21", (4000, 100_000), strategy21, check21),
+            subcheck("ecrts19", (8000, 150_000), strategy19, check19).with_decoder(decode19, check19),
+            subcheck("rtss21", (4000, 100_000), strategy21, check21).with_decoder(decode21, check21),
         ],
         extra: None,
     }
